@@ -14,3 +14,148 @@ xhair("C20", "xh/c20_ranges.py",
             "lists/arrays of length <= 4 (thorough 7) with arbitrary integer elements; every rank 0..size-1",
       out="process counts beyond the bound; the MPI transport itself (stand-in configuration object); "
           "asynchronous_range")
+
+
+# ---------------------------------------------------------------------------
+# "... so that sum-reduced results equal the serial result": the real users of the helpers
+# ---------------------------------------------------------------------------
+import contextlib
+import sys
+import types
+
+import numpy
+
+from vf.framework import harness
+from harness.common import build_sbi, set_symmetric_hamiltonian, set_symmetric_K
+
+D = "quantarhei/qm/liouvillespace/"
+
+
+class FakeComm:
+    """sequentially simulated communicator: pass 1 records every rank's contribution to each Allreduce,
+    pass 2 hands every rank the sum (what MPI's Allreduce with op=SUM does)"""
+
+    def __init__(self):
+        self.recorded = {}       # call index -> {rank: array}
+        self.mode = "record"
+        self.rank = 0
+        self.calls = 0
+
+    def new_rank(self, rank):
+        self.rank = rank
+        self.calls = 0
+
+    def Allreduce(self, A, B, op=None):
+        k = self.calls
+        self.calls += 1
+        if self.mode == "record":
+            self.recorded.setdefault(k, {})[self.rank] = numpy.array(A, dtype=object).copy()
+            B[...] = A
+        else:
+            parts = self.recorded[k]
+            tot = None
+            for r in sorted(parts):
+                tot = parts[r] if tot is None else tot + parts[r]
+            B[...] = tot
+
+    def Reduce(self, A, B, op=None, root=0):
+        # result only on the root process
+        k = self.calls
+        self.calls += 1
+        if self.mode == "record":
+            self.recorded.setdefault(k, {})[self.rank] = numpy.array(A, dtype=object).copy()
+            if B is not None:
+                B[...] = A
+        elif self.rank == root and B is not None:
+            parts = self.recorded[k]
+            tot = None
+            for r in sorted(parts):
+                tot = parts[r] if tot is None else tot + parts[r]
+            B[...] = tot
+
+    def bcast(self, value, root=0):
+        return value
+
+    def Barrier(self):
+        pass
+
+    def Get_rank(self):
+        return self.rank
+
+
+@contextlib.contextmanager
+def simulated_mpi(comm, size):
+    """the real DistributedConfiguration of the Manager with have_mpi/size/rank/comm set by hand and a
+    stand-in mpi4py module (only MPI.SUM is looked up by the code)"""
+    from quantarhei.core.managers import Manager
+    dc = Manager().get_DistributedConfiguration()
+    saved = {k: getattr(dc, k) for k in ("have_mpi", "comm", "rank", "size", "parallel_level", "parallel_region",
+                                         "inparallel")}
+    fake = types.ModuleType("mpi4py")
+    fake.MPI = types.SimpleNamespace(SUM="sum", COMM_WORLD=comm)
+    old = sys.modules.get("mpi4py")
+    sys.modules["mpi4py"] = fake
+    dc.have_mpi, dc.comm, dc.size = True, comm, size
+    dc.parallel_level, dc.parallel_region, dc.inparallel = 0, 0, False
+    try:
+        yield dc
+    finally:
+        for k, v in saved.items():
+            setattr(dc, k, v)
+        if old is None:
+            sys.modules.pop("mpi4py", None)
+        else:
+            sys.modules["mpi4py"] = old
+
+
+def _build(kind, ham, sbi):
+    from quantarhei.qm import RedfieldRelaxationTensor, RedfieldRateMatrix
+    if kind == "operators":
+        RT = RedfieldRelaxationTensor(ham, sbi, as_operators=True)
+        return dict(Lm=RT._Lm.copy(), Ld=RT._Ld.copy(), Km=RT._Km.copy())
+    if kind == "tensor":
+        RT = RedfieldRelaxationTensor(ham, sbi, as_operators=False)
+        return dict(R=RT._data.copy())
+    if kind == "converted":
+        RT = RedfieldRelaxationTensor(ham, sbi, as_operators=True)
+        RT.convert_2_tensor()
+        return dict(R=RT._data.copy())
+    raise ValueError(kind)
+
+
+@harness("C20", "sum_reduction",
+         quick=[dict(size=2, kind="operators"), dict(size=2, kind="tensor"), dict(size=3, kind="converted")],
+         thorough=[dict(size=s, kind=k) for s in (2, 3, 4) for k in ("operators", "tensor", "converted")],
+         functions=[D + "redfieldtensor.py:RedfieldRelaxationTensor._implementation",
+                    D + "redfieldtensor.py:RedfieldRelaxationTensor._convert_operators_2_tensor",
+                    F + ":block_distributed_range", F + ":DistributedConfiguration.allreduce",
+                    F + ":start_parallel_region", F + ":close_parallel_region"],
+         bound="the Redfield tensor (operator form, tensor form, operator form converted) of a 3-level system with 3 "
+               "baths, built by the real code on every rank of 2, 3 (thorough 4) sequentially simulated processes "
+               "(the Manager's real DistributedConfiguration with rank/size set by hand; Allreduce = sum of the "
+               "ranks' recorded contributions): on EVERY rank the result equals the serial one; H, K_m symbolic, "
+               "bath integrals uninterpreted",
+         out="the MPI transport itself; the rate-matrix and other users of the helpers")
+def sum_reduction(cx, size, kind):
+    N, nb = 3, 3
+    ham, sbi, time = build_sbi(cx, N, nb, Nt=4)
+    set_symmetric_hamiltonian(cx, ham)
+    set_symmetric_K(cx, sbi, N)
+    if cx.sym:
+        from symnum import linalg
+        linalg.use_eigh(eigen_equation=False)
+    serial = _build(kind, ham, sbi)
+    comm = FakeComm()
+    with simulated_mpi(comm, size) as dc:
+        for mode in ("record", "sum"):
+            comm.mode = mode
+            results = []
+            for r in range(size):
+                comm.new_rank(r)
+                dc.rank = r
+                dc.parallel_level, dc.parallel_region, dc.inparallel = 0, 0, False
+                results.append(_build(kind, ham, sbi))
+        cx.prove("reductions_happened", len(comm.recorded) >= 1 and all(len(v) == size for v in comm.recorded.values()))
+        for r, res in enumerate(results):
+            for name, val in res.items():
+                cx.prove_eq("rank%d/%s_equals_serial" % (r, name), val, serial[name], tol=1e-9)
